@@ -3,11 +3,14 @@ C03 — PDU encode/decode round trip for every message type and field value.
 PARTIAL: command_length is proved for all fifteen classes and every field assignment; the
 header and the round trip are proved for the body-less classes, for submit_sm_resp /
 deliver_sm_resp, for the three bind requests and the three bind responses (13 of the 15 classes);
-for submit_sm / deliver_sm the round trip is so far tied by the correspondence + round-trip
-predicate only (the model of their encoder and decoder is the one the driver runs).
+for submit_sm / deliver_sm it is proved for messages without optional parameters whose text travels in
+short_message (`sm_round_trip_short`, codec and time round trips as explicit facts; `sm_round_trip_gsm`
+with none left); with optional parameters, message_payload or a UDH it is tied by the correspondence +
+round-trip predicate (the model of their encoder and decoder is the one the driver runs).
 -/
 import SmppVerif.Lemmas.Pdu
 import SmppVerif.Lemmas.BindRound
+import SmppVerif.Lemmas.SmRead
 
 namespace SmppVerif.Props.C03
 open SmppVerif SmppVerif.Pdu SmppVerif.Lemmas.Pdu
@@ -64,6 +67,44 @@ theorem bindResp_round_trip (dflt : Enc) (k : BindKind) (b : BindResp) (w : Lemm
     decode bytes dflt = .ok (Msg.bindResp k b) :=
   Lemmas.BindRound.bindResp_round_trip dflt k b w bytes e hst h
 
+/-- Round trip, submit_sm / deliver_sm, text in short_message, no optional parameters — for every
+    in-range assignment of the seventeen mandatory fields, every default alphabet and every encoding
+    choice: the decoded message carries the fields that are on the wire (`readBack`); what is not
+    transmitted (tracking fields, request status, local options) takes its default.  The text codec
+    and the SMPP time format enter through their round-trip facts: `hdm` (decode of the encoded text)
+    and `hfs` / `hfv` (C17), so the statement covers every codec for which such a fact holds. -/
+theorem sm_round_trip_short (dflt : Enc) (deliver : Bool) (m : Sm) (w : Lemmas.SmRead.SmRT m) (bytes : List Nat)
+    (e : Option Enc) (sm ts tv text : List Nat) (enc' : Option Enc) (encD : Enc) (dc : Nat)
+    (schedT validT : Time.TimeObj)
+    (hp : pdu dflt (if deliver then Msg.deliverSm m else Msg.submitSm m) = .ok (bytes, e))
+    (htp : smTextPart dflt m = .ok (sm, [], enc')) (hdcv : smDataCoding enc' = .ok dc) (hdc : dc < 256)
+    (hsm : sm.length < 256)
+    (hts : Time.toSmpp m.schedule = .ok ts) (htv : Time.toSmpp m.validity = .ok tv)
+    (hcs : Lemmas.PduRead.CStrOK ts ∧ Lemmas.PduRead.CStrOK tv)
+    (hfs : Time.fromSmpp ts = .ok schedT) (hfv : Time.fromSmpp tv = .ok validT)
+    (henc : (if dc = 0 then Except.ok dflt else encOfDataCoding dc) = .ok encD)
+    (hdm : decodeMessage m.esmClass.toNat (decodeCodec encD) sm = .ok (text, []))
+    (htext : text ≠ []) (hst : enumHas Gen.Enums.smppCommandStatus m.status = true) :
+    decode bytes dflt = .ok (if deliver then Msg.deliverSm (Lemmas.SmRead.readBack m text [] schedT validT encD)
+                             else Msg.submitSm (Lemmas.SmRead.readBack m text [] schedT validT encD)) :=
+  Lemmas.SmRead.sm_round_trip_short dflt deliver m w bytes e sm ts tv text enc' encD dc schedT validT
+    hp htp hdcv hdc hsm hts htv hcs hfs hfv henc hdm htext hst
+
+/-- … instantiated with no hypothesis left for the default alphabet GSM 03.38 and automatic encoding:
+    every text over the alphabet (extension characters included) that fits short_message. -/
+theorem sm_round_trip_gsm (deliver : Bool) (m : Sm) (w : Lemmas.SmRead.SmRT m) (bytes : List Nat) (e : Option Enc)
+    (hp : pdu encGsm (if deliver then Msg.deliverSm m else Msg.submitSm m) = .ok (bytes, e))
+    (henc : m.encoding = none) (hpre : m.encoded = []) (hpay : m.messagePayload = [])
+    (heh : m.errorHandling = .mode .strict)
+    (htext : Gsm.isGsmText m.shortMessage = true) (hne : m.shortMessage ≠ [])
+    (hlen : ∀ b, Gsm.encode .strict m.shortMessage = .ok b → b.length ≤ 254)
+    (hudhi : m.esmClass.toNat % 128 < 64)
+    (htime : m.schedule = .none ∧ m.validity = .none)
+    (hst : enumHas Gen.Enums.smppCommandStatus m.status = true) :
+    decode bytes encGsm = .ok (if deliver then Msg.deliverSm (Lemmas.SmRead.readBack m m.shortMessage [] .none .none encGsm)
+                               else Msg.submitSm (Lemmas.SmRead.readBack m m.shortMessage [] .none .none encGsm)) :=
+  Lemmas.SmRead.sm_round_trip_gsm deliver m w bytes e hp henc hpre hpay heh htext hne hlen hudhi htime hst
+
 /-- Non-vacuity: a submit_sm_resp with a 3-character id, and a short GSM submit_sm whose PDU
     decodes to itself (kernel evaluation of the SubmitSm encoder and decoder of the model). -/
 example : pdu encGsm (.submitSmResp { seq := 7, status := 0, messageId := [97, 98, 99] })
@@ -82,3 +123,5 @@ end SmppVerif.Props.C03
 #print axioms SmppVerif.Props.C03.smResp_round_trip
 #print axioms SmppVerif.Props.C03.bind_round_trip
 #print axioms SmppVerif.Props.C03.bindResp_round_trip
+#print axioms SmppVerif.Props.C03.sm_round_trip_short
+#print axioms SmppVerif.Props.C03.sm_round_trip_gsm
